@@ -247,13 +247,31 @@ def c03c(ck, prog):
                              "after set(k,a); delete(k); set(k,b) both are yielded -- a removed header value is sent again and write_unchecked_to writes more than `size` bytes" % (rd.name, txt)),
               how="delete() removes the entry from `values`" if physical else "filter compares the element's position")
     if physical:
-        # after a physical removal the displaced slots must be re-indexed
+        # after a physical removal the slots of *all* displaced elements (positions >= the removed one) must be re-indexed
         g = removes[0].fn
-        reidx = [st for b in g.blocks for st in b["st"] if st["k"] == "=" and st["p"][1] and any(pr[0] == "d" for pr in st["p"][1]) and st["r"][0] in ("bin", "use")]
-        loops = any(t for t in (g.term(b) for b in g.live_blocks()) if t["k"] == "call" and re.search(r"Iterator>::next$|iterator::Iterator::next$", t.get("callee") or ""))
-        sw = removes[0].name == "swap_remove"
-        ok = loops or sw and len(reidx) > 0
-        ck.ob(R, "delete:reindexes", ok, g.loc(None), "" if ok else "IndexMap::delete removes an element from `values` without re-indexing the slots of the elements that moved", how="slots of displaced elements are updated in a loop")
+        rm = removes[0]
+        sw = rm.name == "swap_remove"
+        loops = any(t for t in (g.term(b) for b in g.live_blocks()) if t["k"] == "call" and re.search(r"Iterator>?::next$", t.get("callee") or ""))
+        ok = loops or sw
+        how = "slots of displaced elements are updated in a loop"
+        if rm.name == "remove" and loops:
+            dP = decision.describe_deep(g, rm.args[1], 4)
+            starts = []
+            for c in g.calls():
+                if c.name in ("get_unchecked", "get_unchecked_mut", "index", "index_mut", "get", "get_mut", "skip", "split_at", "split_at_mut") and len(c.args) > 1 and "values" in decision.describe_deep(g, c.args[0], 4):
+                    for st_, off in guards.leaves(g, g.origin(c.args[1])):
+                        if st_ and st_[-1][0] != "const":
+                            starts.append((decision.describe_deep(g, c.args[1], 4), guards.describe_origin(g, st_), off))
+            pos_origin = guards.describe_origin(g, g.origin(rm.args[1]))
+            exact = [x for x in starts if x[1] == pos_origin and x[2] == 0]
+            ranged = [x for x in starts if "Range" in x[0]]
+            if ranged:
+                ok = bool([x for x in ranged if x[1] == pos_origin and x[2] == 0]) and not [x for x in ranged if x[1] == pos_origin and x[2] != 0]
+                how = "the re-index loop ranges over values[%s..] where %s is the removed position" % (pos_origin, pos_origin)
+                if not ok:
+                    how = "the re-index loop starts at %r, the element was removed at `%s`" % ([(x[1], x[2]) for x in ranged], pos_origin)
+        ck.ob(R, "delete:reindexes", ok, g.loc(None),
+              "" if ok else "IndexMap::delete removes an element from `values` but does not re-index every element that moved (%s): a header that slid forward keeps a stale slot and later operations hit its neighbour" % how, how=how)
     # new / clear: all slots NULL, values empty
     ok = "NULL" in str(new.blocks) and any(st["r"][0] == "repeat" for b in new.blocks for st in b["st"] if st["k"] == "=")
     ck.ob(R, "new:all-null", ok, new.loc(None), "" if ok else "IndexMap::new does not initialise every slot to NULL", how="[NULL; N]")
